@@ -26,9 +26,15 @@ FLIP = [0]      # orientation variant used by mk_graph (set per job): the defini
 HIST = [False]  # history variant used by mk_graph: the Graph object is used for constraints while it is still being built
 
 
-def _orient(job):
+def _orient(job, explicit=None):
+    """per-job variants.  explicit: the value this job passes for use_graph_primitive (None: the helper is called
+    without it).  In every other job that passes the option, the configuration defaults are set to the OPPOSITE value:
+    an explicit argument wins over cspuz.config, so the verdicts must not change."""
     FLIP[0] = job.get("flip", 0)
     HIST[0] = bool(job.get("hist", (job.get("id", 0) + job.get("flip", 0)) % 2))
+    opposite = explicit is not None and bool(job.get("cfg_opposite", job.get("id", 0) % 2))
+    _cfgmod.config.use_graph_primitive = (not explicit) if opposite else False
+    _cfgmod.config.use_graph_division_primitive = (not explicit) if opposite else False
 
 
 def mk_graph(g):
@@ -154,7 +160,7 @@ def call_conn(s, obj, flags_arg, acyclic, prim):
 
 def run_conn(job):
     """job: obj, acyclic, form, patterns, expects -> list of mismatches"""
-    _orient(job)
+    _orient(job, explicit=bool(job.get("prim", False)))
     obj, acyclic, form = job["obj"], job["acyclic"], job["form"]
     n = obj["graph"]["n"]
     shape = (obj["h"], obj["w"]) if obj["kind"] == "grid" else None
@@ -181,7 +187,7 @@ def run_conn(job):
 
 
 def emit_conn(job):
-    _orient(job)
+    _orient(job, explicit=True)
     obj, acyclic, form = job["obj"], job["acyclic"], job["form"]
     n = obj["graph"]["n"]
     shape = (obj["h"], obj["w"]) if obj["kind"] == "grid" else None
@@ -275,7 +281,7 @@ def _fix_ids(s, ids, bits):
 
 def run_cycle(job):
     """z3 route of active_edges_single_cycle: verdict and, through solve(), the returned array"""
-    _orient(job)
+    _orient(job, explicit=bool(job.get("prim", False)))
     obj, form = job["obj"], job["form"]
     m = len(obj["graph"]["edges"])
     npts = obj["graph"]["n"]
@@ -319,7 +325,7 @@ def run_cycle(job):
 
 def emit_cycle(job):
     """native-primitive program of single_cycle / single_path"""
-    _orient(job)
+    _orient(job, explicit=True)
     obj, form, which = job["obj"], job["form"], job["which"]
     fn = cg.active_edges_single_cycle if which == "cycle" else cg.active_edges_single_path
     s = Solver()
@@ -534,7 +540,7 @@ def _border_setup(s, job, prim):
 
 
 def run_borders(job):
-    _orient(job)
+    _orient(job, explicit=bool(job.get("prim", False)))
     m = len(job["obj"]["graph"]["edges"])
     out = []
     for p, exp in zip(job["patterns"], job["expects"]):
@@ -556,7 +562,7 @@ def run_borders(job):
 
 
 def emit_borders(job):
-    _orient(job)
+    _orient(job, explicit=True)
     s = Solver()
     try:
         bits, fixed = _border_setup(s, job, True)
@@ -606,6 +612,7 @@ def _cross_frame(s, h, w, form, bits):
 
 
 def run_cross(job):
+    _orient(job, explicit=bool(job.get("prim", False)))
     obj = job["obj"]
     h, w = obj["h"], obj["w"]
     m = len(obj["graph"]["edges"])
@@ -639,6 +646,7 @@ def run_cross(job):
 
 
 def emit_cross(job):
+    _orient(job, explicit=True)
     obj = job["obj"]
     h, w = obj["h"], obj["w"]
     s = Solver()
